@@ -9,6 +9,7 @@ package main
 
 import (
 	"bufio"
+	"bytes"
 	"encoding/json"
 	"flag"
 	"fmt"
@@ -16,12 +17,15 @@ import (
 	"math/rand"
 	"net"
 	"net/http"
+	"net/http/httputil"
+	"net/url"
 	"os"
 	"os/exec"
 	"path/filepath"
 	"sort"
 	"strings"
 	"sync"
+	"sync/atomic"
 	"syscall"
 	"time"
 
@@ -61,6 +65,7 @@ type Op struct {
 	A    string `json:"a,omitempty"`
 	N    int    `json:"n,omitempty"`
 	Ms   int    `json:"ms,omitempty"`
+	K    int    `json:"k,omitempty"` // FailSend: requests let through first
 	Name string `json:"name,omitempty"`
 }
 
@@ -77,6 +82,9 @@ type proc struct {
 	cmd           *exec.Cmd
 	args          []string
 	syncArgs      []string
+	failSend      int32 // the next failSend "send this file" requests to this replica's sync agent are refused (503) ...
+	skipSend      int32 // ... after skipSend of them have been let through (the first one of a rebuild carries the head's metadata)
+	proxy         *http.Server
 	env           []string // extra environment of the replica process
 	log           *os.File
 	wantUp        bool
@@ -93,6 +101,8 @@ type cluster struct {
 	jiva   string
 	work   string
 	preEnv map[string][]string // extra environment for replica processes spawned later, by name
+	restDown int32             // != 0: the controller's REST endpoint answers 503
+	extra    []*exec.Cmd       // sync agents restarted on their own (SpawnSync)
 }
 
 type run struct {
@@ -154,7 +164,15 @@ func newCluster(ip, jiva, work string, rf int) (*cluster, error) {
 	if err != nil {
 		return nil, err
 	}
-	cl.srv = &http.Server{Handler: ctlrest.NewRouter(ctlrest.NewServer(cl.c))}
+	inner := ctlrest.NewRouter(ctlrest.NewServer(cl.c))
+	// (the controller's management endpoint can be made unreachable for a while: 503 to everybody)
+	cl.srv = &http.Server{Handler: http.HandlerFunc(func(w http.ResponseWriter, req *http.Request) {
+		if atomic.LoadInt32(&cl.restDown) != 0 {
+			http.Error(w, "controller endpoint down", http.StatusServiceUnavailable)
+			return
+		}
+		inner.ServeHTTP(w, req)
+	})}
 	go cl.srv.Serve(l)
 	return cl, nil
 }
@@ -186,7 +204,8 @@ func (cl *cluster) spawn(name, ip string, extra ...string) error {
 			"--logtofile=false", "--sync-agent=false"}, extra...)
 		p.args = append(p.args, p.dir)
 		slot := portSlot()
-		p.syncArgs = []string{"sync-agent", "--listen", ip + ":9504", "--listen-port-range",
+		cl.startSyncProxy(p)
+		p.syncArgs = []string{"sync-agent", "--listen", ip + ":9514", "--listen-port-range",
 			fmt.Sprintf("%d-%d", 20000+slot*12, 20000+slot*12+11)}
 	}
 	p.mu.Lock()
@@ -245,6 +264,44 @@ func (cl *cluster) startLocked(p *proc) error {
 	return nil
 }
 
+// The replica's sync agent listens on <ip>:9514; everybody talks to it through this reverse proxy on
+// the well-known <ip>:9504, which can refuse "send file" requests (POST /v1/processes, type sync):
+// a file transfer of a rebuild / clone that fails while everything else keeps working.
+func (cl *cluster) startSyncProxy(p *proc) {
+	target, _ := url.Parse("http://" + p.ip + ":9514")
+	rp := httputil.NewSingleHostReverseProxy(target)
+	h := http.HandlerFunc(func(w http.ResponseWriter, req *http.Request) {
+		if req.Method == "POST" && strings.HasSuffix(req.URL.Path, "/processes") {
+			body, _ := ioutil.ReadAll(req.Body)
+			req.Body = ioutil.NopCloser(bytes.NewReader(body))
+			var pr struct {
+				ProcessType string `json:"processType"`
+			}
+			json.Unmarshal(body, &pr)
+			if pr.ProcessType == "sync" && atomic.LoadInt32(&p.failSend) > 0 && atomic.AddInt32(&p.skipSend, -1) < 0 {
+				for {
+					n := atomic.LoadInt32(&p.failSend)
+					if n <= 0 {
+						break
+					}
+					if atomic.CompareAndSwapInt32(&p.failSend, n, n-1) {
+						http.Error(w, "injected: sync agent refuses to send the file", http.StatusServiceUnavailable)
+						return
+					}
+				}
+			}
+		}
+		rp.ServeHTTP(w, req)
+	})
+	l, err := net.Listen("tcp", p.ip+":9504")
+	if err != nil {
+		fmt.Fprintln(os.Stderr, "HARNESS-ERROR: sync proxy:", err)
+		os.Exit(2)
+	}
+	p.proxy = &http.Server{Handler: h}
+	go p.proxy.Serve(l)
+}
+
 // freshSyncPorts gives the next incarnation of a replica's sync agent its own receiver ports
 func (cl *cluster) freshSyncPorts(name string) {
 	p := cl.procs[name]
@@ -254,7 +311,7 @@ func (cl *cluster) freshSyncPorts(name string) {
 	p.mu.Lock()
 	defer p.mu.Unlock()
 	slot := portSlot()
-	p.syncArgs = []string{"sync-agent", "--listen", p.ip + ":9504", "--listen-port-range",
+	p.syncArgs = []string{"sync-agent", "--listen", p.ip + ":9514", "--listen-port-range",
 		fmt.Sprintf("%d-%d", 20000+slot*12, 20000+slot*12+11)}
 }
 
@@ -279,6 +336,16 @@ func (cl *cluster) kill(name string) {
 }
 
 func (cl *cluster) stop() {
+	for _, p := range cl.procs {
+		if p.proxy != nil {
+			p.proxy.Close()
+		}
+	}
+	for _, c := range cl.extra {
+		if c.Process != nil {
+			syscall.Kill(-c.Process.Pid, syscall.SIGKILL)
+		}
+	}
 	for _, p := range cl.procs {
 		p.mu.Lock()
 		p.wantUp = false
@@ -475,6 +542,34 @@ func (r *run) exec(op Op) {
 	case "WaitRW":
 		ok := r.waitRW(cl, op.N, time.Duration(op.Ms)*time.Millisecond)
 		r.emit("WaitRW", map[string]interface{}{"n": op.N, "ok": ok})
+	case "FailSend":
+		// the next op.N file transfers asked of replica op.A's sync agent are refused (0 clears)
+		if p := cl.procs[op.A]; p != nil {
+			atomic.StoreInt32(&p.skipSend, int32(op.K))
+			atomic.StoreInt32(&p.failSend, int32(op.N))
+		}
+		r.emit("Sample", map[string]interface{}{"failsend": op.A, "n": op.N})
+	case "KillSync":
+		// only the replica's sync agent dies (the process that sends / receives snapshot files);
+		// the replica itself stays in service
+		if p := cl.procs[op.A]; p != nil {
+			exec.Command("pkill", "-KILL", "-f", "sync-agent --listen "+p.ip+":9514").Run()
+		}
+		r.emit("Sample", map[string]interface{}{"killsync": op.A})
+	case "SpawnSync":
+		if p := cl.procs[op.A]; p != nil {
+			cmd := exec.Command(cl.jiva, p.syncArgs...)
+			cmd.Dir = p.dir
+			cmd.SysProcAttr = &syscall.SysProcAttr{Setpgid: true}
+			if lf, err := os.OpenFile(filepath.Join(cl.work, p.name+".log"), os.O_CREATE|os.O_APPEND|os.O_WRONLY, 0600); err == nil {
+				cmd.Stdout, cmd.Stderr = lf, lf
+			}
+			if cmd.Start() == nil {
+				cl.extra = append(cl.extra, cmd)
+				go cmd.Wait()
+			}
+		}
+		r.emit("Sample", map[string]interface{}{"spawnsync": op.A})
 	case "WaitMode":
 		// until the controller lists replica op.A with mode op.Name (e.g. "WO": just added, the
 		// transfer of its rebuild has not finished yet)
@@ -651,7 +746,7 @@ func (r *run) runClone(subnet, wd string) {
 	}
 	snaps := []string{}
 	nsn := 1 + rng.Intn(3)
-	failVariant := r.sc.ID%3 == 2
+	failVariant := r.sc.ID%4 == 2
 	if failVariant && nsn < 2 {
 		nsn = 2 // the failing-reload variant needs a snapshot below S (chain limit >= 2 to start at all)
 	}
@@ -688,7 +783,17 @@ func (r *run) runClone(subnet, wd string) {
 	}
 	r.clone = c2
 	// scenario id decides the variant: undisturbed / clone process killed in the middle / reload fails
-	interrupt := r.sc.ID%3 == 1
+	interrupt := r.sc.ID%4 == 1
+	// the source volume's controller is unreachable when the clone starts and for 7 s after:
+	// the clone has to wait for it, and must not be served while it waits
+	sourceLate := r.sc.ID%4 == 3
+	if sourceLate {
+		atomic.StoreInt32(&cl.restDown, 1)
+		go func() {
+			time.Sleep(7 * time.Second)
+			atomic.StoreInt32(&cl.restDown, 0)
+		}()
+	}
 	// a clone that cannot complete: the clone replica's chain limit is one short of what the
 	// cloned chain (snapshots up to S + head) needs, so its reload after the transfer fails.
 	// It must end as an error and never be served.
@@ -715,7 +820,7 @@ func (r *run) runClone(subnet, wd string) {
 		os.Exit(2)
 	}
 	r.emit("CloneSpawn", map[string]interface{}{"snap": S, "srcsnap": src.Snaps["s-"+S], "srcchain": src.Chain, "interrupt": interrupt,
-		"failreload": failReload})
+		"failreload": failReload, "sourcelate": sourceLate})
 	// sample clone status / modes until it is RW (or time is up); writes go on at the source
 	deadline := time.Now().Add(60 * time.Second)
 	errSeen := false
